@@ -93,6 +93,10 @@ type Case struct {
 	// the client hangs up while the database is still working on a statement: the request context is cancelled as soon as a
 	// statement of the script marked `stall` has reached the driver (net/http does that when the connection goes away)
 	HangUp bool `json:"hang_up,omitempty"`
+	// size of the database/sql connection pool behind the wrapper while this request is served (0 = 64, the harness default;
+	// production: max_open_connection). With 1, a request that asks for a second connection while it still holds an open
+	// result set waits in database/sql.(*DB).conn for ever
+	MaxConns int `json:"max_conns,omitempty"`
 	// a history: requests served by the same process after this one, in this order (each with its own script)
 	Then       []*Case         `json:"then,omitempty"`
 	Boot       Boot            `json:"boot"`           // faults of dbVersion's two bootstrap statements
@@ -457,6 +461,7 @@ func followUp(deadline time.Duration) string {
 			}
 			curScript.Store(&scriptT{sets: p.Script})
 			setCache(cold)
+			setPoolSize(0)
 			ctx, cancel := context.WithCancel(context.Background())
 			req := buildRequest(p, ctx)
 			rec := httptest.NewRecorder()
@@ -485,6 +490,7 @@ func runCase(c *Case, deadline time.Duration) *Obs {
 	obs := &Obs{}
 	curScript.Store(&scriptT{sets: c.Script, boot: c.Boot})
 	setCache(c.Cold)
+	setPoolSize(c.MaxConns)
 	base := census()
 	rows0 := atomic.LoadInt64(&openRows)
 	q0 := atomic.LoadInt64(&queriesSeen)
